@@ -109,7 +109,7 @@ def cat(tier):
     if tier not in _CAT:
         c = []
         for fam, spec in catalog.all_load_models(tier):
-            if hierarchy_free(spec) and fam != 'season':
+            if hierarchy_free(spec) and fam not in ('season', 'hook-sharing'):
                 c.append(('strong', fam, spec))
             else:
                 c.append(('weak', fam, spec))
